@@ -36,7 +36,7 @@ def gen_query(rng, G):
     toks.append(Tok("opt", "select"))
     cols = []
     ncol = rng.randint(1, 4)
-    safe_fields = ["FName", "FSize", "FPath", "FExtension", "FDirectory", "FIsDir", "FHardlinks", "FMode", "FFormattedSize", "FIsPipe", "FIsCharacterDevice", "FUserAll", "FSha256"]
+    safe_fields = ["FName", "FSize", "FPath", "FExtension", "FDirectory", "FIsDir", "FHardlinks", "FMode", "FFormattedSize", "FIsPipe", "FIsCharacterDevice", "FUserAll", "FAbsPath"]
     for i in range(ncol):
         r = rng.random()
         if r < 0.6:
